@@ -313,6 +313,10 @@ class Serializable(eqx.Module):
 
         Returns:
             The deserialized model.
+
+        Raises:
+            RuntimeError: If the file does not match the structure of the model
+                built from the given constructor arguments.
         """
         path = Path(path)
         if path.suffix != ".eqx":
@@ -320,6 +324,13 @@ class Serializable(eqx.Module):
             if suffixed.exists() or not path.exists():
                 path = suffixed
 
-        return eqx.tree_deserialise_leaves(
-            path, eqx.filter_eval_shape(cls, *args, **kwargs)
-        )
+        like = eqx.filter_eval_shape(cls, *args, **kwargs)
+        with open(path, "rb") as file:
+            model = eqx.tree_deserialise_leaves(file, like)
+            if file.read(1):
+                raise RuntimeError(
+                    f"{path} holds more leaves than the model built from the given "
+                    "constructor arguments: it was saved from a model with a "
+                    "different structure."
+                )
+        return model
